@@ -9,10 +9,11 @@ import os
 import random
 
 from vmon import bits, contracts
+from vmon.libutil import monitored
 
 LEVEL = "exploration"
 SHARDS = {"quick": 8, "thorough": 16}
-MUST = ["read_as_int.evaluations", "read_as_bytes.evaluations", "insitu.reads", "wide.reads"]
+MUST = ["read_as_int.evaluations", "read_as_bytes.evaluations", "insitu.reads", "wide.reads", "indomain.boundary_reads", "stateful.reads"]
 RULE = ("every read_as_int/read_as_bytes/_extract_bits call made by the workload is checked by a postcondition "
         "against int(bitstring[p:p+n],2); workload = all (p,n) with p+n<=48 over 24 structured 6-byte buffers "
         "(exhaustive), all 64 (p%8,n%8) classes at widths up to 4096 bytes, seeded random reads, sequential "
@@ -54,10 +55,17 @@ def run(ctx):
                 for meth in ("read_as_int", "read_as_bytes"):
                     r = RPD(buf)
                     r.pos = p
-                    getattr(r, meth)(n)
+                    try:
+                        getattr(r, meth)(n)
+                    except Exception as ex:  # noqa: BLE001 - an in-domain read must return
+                        ctx.violation(f"{meth}/exception/{type(ex).__name__}/{'n0' if n == 0 else 'n>0'}/{'at-end' if p == 48 else 'inside'}",
+                                      f"{meth}({n}) at cursor {p} of a 6-byte buffer raised {ex!r} although p+n <= 48", {"buf": buf, "pos": p, "nbits": n})
                     k += 1
                 if hasattr(packets, "_extract_bits"):
-                    packets._extract_bits(buf, p, n)
+                    try:
+                        packets._extract_bits(buf, p, n)
+                    except Exception:  # noqa: BLE001 - private helper: its exceptions surface through the public reads above
+                        pass
     ctx.count("evaluations", k)
     ctx.exhaustive_space("(p,n) with p+n<=48 x 24 buffers x 2 methods", k)
 
@@ -83,6 +91,59 @@ def run(ctx):
                     getattr(r, meth)(n)
                     ctx.count("evaluations")
 
+    # ---- 2b. every in-domain read must RETURN (an exception on p+n <= 8*len is a violation): boundary shapes -----------------
+    for ln in (0, 1, 2, 6):
+        buf = bytes(rng.getrandbits(8) for _ in range(ln))
+        for p in range(0, 8 * ln + 1):
+            for n in sorted(x for x in {0, 1, 8 * ln - p, max(0, 8 * ln - p - 1), min(7, 8 * ln - p)} if x <= 8 * ln - p):
+                for meth in ("read_as_int", "read_as_bytes"):
+                    r = RPD(buf)
+                    r.pos = p
+                    s_ = monitored(getattr(r, meth), n)
+                    ctx.count("evaluations")
+                    ctx.count("indomain.boundary_reads")
+                    if s_.exc is not None:
+                        ctx.violation(f"{meth}/exception/{type(s_.exc).__name__}/{'n0' if n == 0 else 'n>0'}/{'at-end' if p == 8 * ln else 'inside'}",
+                                      f"{meth}({n}) at cursor {p} of a {ln}-byte buffer raised {s_.exc!r} although p+n <= 8*len", {"len": ln, "pos": p, "nbits": n})
+    # ---- 2c. stateful chains with an independently tracked cursor: between reads, things that are NOT reads happen (a read that
+    #          is rejected because it does not fit, header accessor / header_values access, str()): none may move the cursor ----
+    for _ in range(ctx.size(300, 8000)):
+        ln = rng.choice([7, 8, 12, 40])
+        buf = bytes(rng.getrandbits(8) for _ in range(ln))
+        r = RPD(buf)
+        tracked = 0
+        for step in range(rng.randrange(3, 12)):
+            ev = rng.choice(["read", "read", "read", "reject", "header_values", "accessor", "str"])
+            room = 8 * ln - tracked
+            if ev == "read":
+                n = rng.randrange(0, min(room, 40) + 1)
+                meth = rng.choice(("read_as_int", "read_as_bytes"))
+                s_ = monitored(getattr(r, meth), n)
+                exp = bits.u(bits.bitstr(buf)[tracked:tracked + n])
+                got = s_.value if meth == "read_as_int" else (int.from_bytes(s_.value, "big") if s_.exc is None else None)
+                ctx.count("evaluations")
+                ctx.count("stateful.reads")
+                if s_.exc is not None or got != exp or r.pos != tracked + n:
+                    ctx.violation(f"stateful/{meth}/after-{prev_ev if step else 'start'}",
+                                  f"read {step} of a chain: {meth}({n}) with the cursor expected at {tracked}: got {s_.value!r}/{s_.exc!r}, cursor {r.pos}; expected value {exp}, cursor {tracked + n}",
+                                  {"buf": buf, "tracked_cursor": tracked, "nbits": n, "previous_event": prev_ev if step else None})
+                    break
+                tracked += n
+            elif ev == "reject":
+                s_ = monitored(r.read_as_bytes, room + rng.randrange(1, 64))   # does not fit: must be rejected ...
+                if s_.exc is None:
+                    break   # (over-reads that are not rejected are C14's business)
+            elif ev == "header_values":
+                monitored(lambda: r.header_values)
+            elif ev == "accessor":
+                monitored(lambda: (r.apid, r.sequence_count, r.data_length, r.version_number))
+            else:
+                monitored(str, r)
+            prev_ev = ev
+            if r.pos != tracked:
+                ctx.violation(f"stateful/cursor-moved-by/{ev}", f"after a '{ev}' event (not a read) the cursor is {r.pos}, expected {tracked}",
+                              {"buf": buf, "event": ev, "tracked_cursor": tracked})
+                break
     # ---- 3. seeded random reads, incl. cursor chains (several reads on one object) ---------------
     nrand = ctx.size(100_000, 2_000_000)
     done = 0
